@@ -448,7 +448,7 @@ func init() {
 			// ---- the property
 			if allow == "off" && key == 0 && emptyWhere {
 				// the chain's only "condition" is an empty clause.Where{}: see c09JudgeEmptyWhere (listed finding F26)
-				c09JudgeEmptyWhere(r, c, rejected, fmt.Sprint(err), nExec, changed)
+				c09JudgeEmptyWhere(r, "guard", c, rejected, fmt.Sprint(err), nExec, changed)
 			} else if allow == "off" && key == 0 {
 				// blocking side: must be rejected, nothing sent, nothing changed
 				if !rejected || nExec != 0 || changed {
@@ -600,7 +600,7 @@ func init() {
 		rejected := errors.Is(err, gorm.ErrMissingWhereClause)
 		for _, cl := range calls {
 			if cl.EmptyWhere && c.Allow == "off" && c.Key == 0 {
-				c09JudgeEmptyWhere(r, c, rejected, fmt.Sprint(err), nExec, changed)
+				c09JudgeEmptyWhere(r, "guard", c, rejected, fmt.Sprint(err), nExec, changed)
 				return
 			}
 		}
